@@ -272,10 +272,10 @@ func (b *vhB02) build(depth, maxw int) (Stack, *vhR02) {
 			}
 			s.Push(t)
 			d.elems = append(d.elems, &vhE02{text: t, isTxt: true})
-		case 1: // int leaf
-			v := []int{0, 7, -3, 42}[g.next(4)]
-			s.Push(v)
-			d.elems = append(d.elems, &vhE02{text: []string{"0", "7", "-3", "42"}[indexOfInt(v)], isTxt: true})
+		case 1: // numeric leaf of every primitive family, expected text written by hand
+			k := g.next(len(vhNumLeaves))
+			s.Push(vhNumLeaves[k].v)
+			d.elems = append(d.elems, &vhE02{text: vhNumLeaves[k].t, isTxt: true})
 		case 2: // bool leaf
 			v := g.next(2) == 1
 			s.Push(v)
@@ -309,6 +309,16 @@ func (b *vhB02) build(depth, maxw int) (Stack, *vhR02) {
 		}
 	}
 	return s, d
+}
+
+var vhNumLeaves = []struct {
+	v any
+	t string
+}{
+	{0, "0"}, {7, "7"}, {-3, "-3"}, {42, "42"},
+	{float32(0.1), "0.1"}, {float32(16.8), "16.8"}, {float64(3.6663), "3.6663"}, {float64(1e21), "1e+21"},
+	{uint8(200), "200"}, {int64(-9007199254740993), "-9007199254740993"}, {uint64(18446744073709551615), "18446744073709551615"},
+	{int8(-128), "-128"}, {complex64(complex(1.5, -2)), "(1.5-2i)"}, {float32(1.1), "1.1"}, {uint16(65535), "65535"}, {float64(0.1), "0.1"},
 }
 
 func indexOfInt(v int) int {
